@@ -60,6 +60,8 @@ type Env struct {
 	orig    map[string]reflect.Value // pristine values of the mutable fields (sequential controls)
 	altGpos *gtab.Info               // second alternative value of the field Gpos
 
+	arena *arena // non-nil: the shared state lies in read-only memory (freeze.go)
+
 	pristine   []CellVal           // cached deep hashes of the unmodified state (exec.go)
 	aloneCache map[string][]string // cached alone results of control-free threads
 }
@@ -152,6 +154,7 @@ func BuildEnv(name string) (e *Env, err error) {
 		}
 	}()
 	var f *sfnt.Font
+	var richGsubTexts, richGposTexts []string
 	kind := "cff"
 	switch {
 	case strings.HasPrefix(name, "cff"):
@@ -171,6 +174,16 @@ func BuildEnv(name string) (e *Env, err error) {
 		f = roundTrip(g)
 	case name == "rt-glyf":
 		f, kind = roundTrip(readTTF(goregular.TTF)), "glyf"
+	case name == "rt-ctx" || name == "rt-all":
+		// richenv.go: all subtable kinds, through the writer and the reader
+		g := debug.MakeSimpleFont()
+		g.CreationTime, g.ModificationTime = fixedTime, fixedTime
+		richGsubTexts, richGposTexts = installRich(g, name == "rt-all")
+		f = roundTrip(g)
+		if f.Gsub == nil || f.Gpos == nil || f.Gdef == nil ||
+			len(f.Gsub.LookupList) != len(g.Gsub.LookupList) || len(f.Gpos.LookupList) != len(g.Gpos.LookupList) {
+			panic("rich environment: layout tables lost in the round trip")
+		}
 	default:
 		return nil, fmt.Errorf("unknown env %q", name)
 	}
@@ -179,6 +192,10 @@ func BuildEnv(name string) (e *Env, err error) {
 	e = &Env{Name: name, Kind: kind, Font: f}
 
 	switch name {
+	case "cff-ctx", "glyf-ctx":
+		richGsubTexts, richGposTexts = installRich(f, false)
+	case "cff-all":
+		richGsubTexts, richGposTexts = installRich(f, true)
 	case "cff-gtab", "glyf-gtab":
 		f.Gdef = testGdef(f)
 		f.Gsub = gtabInfo(mustParse(f, richGsub), "liga", []gtab.LookupIndex{0, 4, 5, 6, 7})
@@ -240,6 +257,10 @@ func BuildEnv(name string) (e *Env, err error) {
 		}
 	}
 	e.Texts = []string{"ABC", "AABCDFIFLZGAVTOAM", "THE QUICK BROWN FOX", "AM AV >=< BCD", ""}
+	if isRichEnv(name) {
+		e.Texts = []string{"THE QUICK BROWN FOX"}
+		richLists(e, richGsubTexts, richGposTexts)
+	}
 	if f.Gsub != nil || f.Gpos != nil {
 		l, lerr := f.NewLayouter(language.AmericanEnglish, nil, nil)
 		if lerr == nil {
@@ -501,12 +522,19 @@ func subsetGlyphs(e *Env, arg int) []glyph.ID {
 		return gg
 	}
 	var text string
-	switch arg % 4 {
-	case 0:
+	if arg == 6 {
+		// complete ligature rules (first glyph, all components, the ligature
+		// glyph) of the environments' GSUB 4.1 lookups, in an order that gives
+		// every glyph a new id different from its old one
+		text = "LKZQIFCBRA"
+	}
+	switch {
+	case arg == 6:
+	case arg%4 == 0:
 		text = "ABCFIL"
-	case 1:
+	case arg%4 == 1:
 		text = "AVTO"
-	case 2:
+	case arg%4 == 2:
 		text = "HELLOWORLD"
 	default:
 		// a stride through the glyph set (reaches composite glyphs in the TrueType fonts)
@@ -932,8 +960,8 @@ func init() {
 	Ops = []OpSpec{
 		{Name: "Write", Fn: Op_Write, NArg: 1},
 		{Name: "WritePDF", Fn: Op_WritePDF, NArg: 2},
-		{Name: "Subset", Fn: Op_Subset, NArg: 6},
-		{Name: "SubsetWrite", Fn: Op_SubsetWrite, NArg: 6},
+		{Name: "Subset", Fn: Op_Subset, NArg: 7},
+		{Name: "SubsetWrite", Fn: Op_SubsetWrite, NArg: 7},
 		{Name: "Clone", Fn: Op_Clone, NArg: 1},
 		{Name: "CloneModify", Fn: Op_CloneModify, NArg: 3},
 		{Name: "FontBBox", Fn: Op_FontBBox, NArg: 1},
